@@ -79,6 +79,8 @@ def standard_scenario(src, cfg, nmembers, event_times, quiet=3.0, fault_apis=(),
     plan["sync_delay"] = [0.0, 0.25][src.choice("sync_delay", 2)] if cfg.get("vary_sync_delay") else 0.0
     # partition t-1 without a leader until an election finishes (its position lookup starts later)
     plan["leaderless_until"] = [None, 0.36, 0.5][src.choice("leaderless_until", 3)] if cfg.get("vary_leaderless") else None
+    plan["offset_fetch_delay"] = ([0.0, 0.3][src.choice("offset_fetch_delay", 2)]
+                                  if plan["leaderless_until"] is not None else 0.0)
     faults = GroupFaults(src, set(fault_apis), max_fault_requests, max_faults)
     plan["faults"] = faults
 
@@ -86,14 +88,21 @@ def standard_scenario(src, cfg, nmembers, event_times, quiet=3.0, fault_apis=(),
         run.cluster.fault_fn = faults
         run.plan = plan
         run.cluster.sync_delay = plan["sync_delay"]
+        run.cluster.offset_fetch_delay = plan["offset_fetch_delay"]
         if plan["leaderless_until"] is not None:
+            # t-1 loses its leader just before the second member joins (so the rebalance hands it over
+            # while it is leaderless) and gets it back a little later
             tp1 = ("t", 1)
             real = run.cluster.leader[tp1]
-            run.cluster.leader[tp1] = -1
+            t_lose = max(0.0, (plan["join_B"] or 0.3) - 0.03)
+
+            def lose():
+                run.cluster.leader[tp1] = -1
 
             def elect():
                 run.cluster.leader[tp1] = real
-            loop.call_later(plan["leaderless_until"], elect)
+            loop.call_later(t_lose, lose)
+            loop.call_later(t_lose + (plan["leaderless_until"] - 0.3), elect)
         names = ["A", "B", "C"][:nmembers]
         ms = {n: run.member(n, listener_delay=plan["listener_delay"]) for n in names}
         writer_on = [True]
